@@ -12,8 +12,8 @@ TRIPLES = [(0.3, 0.1, 0.6), (0.2, 0.7, 0.1), (1.0, 0.0, 0.0), (0.0, 1.0, 0.0), (
            (0.1, 0.2, 0.7), (0.35, 0.35, 0.3), (0.05, 0.9, 0.05), (0.15, 0.15, 0.7), (0.6, 0.3, 0.1)]   # (interactive, query, batch)
 
 
-def gen_params(rng: random.Random):
-    policy = rng.choice(["naive", "priority", "priority-pool", "overbook"])
+def gen_params(rng: random.Random, policies=None):
+    policy = rng.choice(list(policies) if policies else ["naive", "priority", "priority-pool", "overbook"])
     tps = rng.choice([1, 1, 10, 10, 10, 100, 1000, 10**4, 10**5])
     max_ticks = rng.choice([0, 1, 5, 200, 800, 2000]) if tps <= 1000 else rng.choice([0, 1, 50, 400])   # <= 2000 s: micro-seconds fit 31 bits
     productive = rng.random() < 0.55
@@ -38,7 +38,7 @@ def gen_params(rng: random.Random):
         "interactive_prob": ip, "query_prob": qp, "batch_prob": bp, "cpu_io_ratio": rng.choice([0.0, 0.2, 0.5, 0.9, 1.0]),
         "scheduler_algo": policy, "num_pools": 2 if policy == "priority-pool" else rng.choice([1, 2, 3, 3, 6, 13]),
         "cpus_per_pool": rng.choice([16, 64]) if productive else rng.choice([1, 4, 16, 64]),
-        "ram_gb_per_pool": rng.choice([256, 1000]) if productive else rng.choice([0.5, 8, 64, 256, 1000]),
+        "ram_gb_per_pool": rng.choice([256, 1000, 100.7]) if productive else rng.choice([0.5, 8, 64, 256, 1000, 12.3, 33.3]),          # RAM is a float: not only whole or half GB
         "multi_operator_containers": True if policy == "priority-pool" else rng.random() < 0.5,
         "allow_memory_overcommit": policy == "overbook", "random_seed": rng.randrange(10**6),
     }
@@ -48,9 +48,9 @@ def gen_params(rng: random.Random):
     return {k: params[k] for k in keys}
 
 
-def run_random(seed, tid):
+def run_random(seed, tid, policies=None):
     rng = random.Random(seed)
-    params = gen_params(rng)
+    params = gen_params(rng, policies)
     events, stats, exc = simrec.record_run(params, tid=tid, mode="obs", U=1000, sparse=True,
                                            meta={"seed": seed, "driver": "C", "policy": params["scheduler_algo"], "params": params})
     # the configured class probabilities (interactive, query, batch) in millionths, for the clauses about the arrivals of a whole run
@@ -99,13 +99,15 @@ def run_uncontended(seed, tid):
 
 
 def _chunk(args):
-    kind, seeds, tid0 = args
+    kind, seeds, tid0 = args[:3]
+    policies = args[3] if len(args) > 3 else None
     common.import_repo()
-    f = run_random if kind == "random" else run_uncontended
-    return [f(sd, tid0 + i) for i, sd in enumerate(seeds)]
+    if kind == "random":
+        return [run_random(sd, tid0 + i, policies) for i, sd in enumerate(seeds)]
+    return [run_uncontended(sd, tid0 + i) for i, sd in enumerate(seeds)]
 
 
-def gen_traces(n, seed, frac_uncontended=0.25, procs=None):
+def gen_traces(n, seed, frac_uncontended=0.25, procs=None, policies=None):
     import multiprocessing as mp
     rng = random.Random(seed)
     nu = int(n * frac_uncontended)
@@ -114,7 +116,7 @@ def gen_traces(n, seed, frac_uncontended=0.25, procs=None):
         seeds = [rng.randrange(2**31) for _ in range(m)]
         step = max(1, (m + 31) // 32)
         for i in range(0, m, step):
-            jobs.append((kind, seeds[i:i + step], tid + i))
+            jobs.append((kind, seeds[i:i + step], tid + i, policies))
         tid += m
     with common.pool(procs or common.NCPU) as pool:
         out = pool.map(_chunk, jobs)
